@@ -294,6 +294,7 @@ class C02(Check):
                                'removeBack() of HashMap / HashSet / PoolMap with key type const void*'),
     }
     not_instantiable = None
+    fail_tags = []
 
     def gen_tables(self):
         # default capacity of the constructors, multiplier of hash(const String&), shift of hash(const void*);
@@ -331,24 +332,43 @@ class C02(Check):
         # the shared reporter groups failures by the first 80 characters of the reason: lead with the operation at
         # which implementation and reference part, so that one defect is reported once (with its shortest history)
         fails = []
+        if self.fail_tags is C02.fail_tags:
+            self.fail_tags = []
         for (i, k, reason) in Check.judge(self, cases, impl_obs, spec_obs):
             ops = [l for l in cases[i] if not l.startswith('@')]
             name = ops[k].split(' ')[0] if k < len(ops) else 'end-of-history'
             if name in ('front', 'back'):
                 name = 'front/back (non-const overload, then the const overload through a const reference)'
+            elif name not in self.fail_tags:
+                # one broken mechanism usually shows at many operations: three groups of their own, the rest together
+                if len(self.fail_tags) < 3:
+                    self.fail_tags.append(name)
+                else:
+                    name = 'other operations'
             fails.append((i, k, ('at operation `%s`: ' % name).ljust(82, '.') + ' ' + reason))
         fails.sort(key=lambda f: len(cases[f[0]]))
         return fails
 
+    crash_total = 0
+
     def run_impl(self, cases, tag='impl'):
         # chunks of 350 cases: a broken tree may crash on most cases, and the shared runner gives up after 400
-        # restarts per call - with chunks every crash still ends in a VIOLATION with a concrete failing input
+        # restarts per call - with chunks every crash still ends in a VIOLATION with a concrete failing input.
+        # Every crash restarts the harness (slow): after 600 crashes over the whole run the remaining cases are
+        # not run (marked `! notrun`, which the framework drops from the stream) - the failing inputs are there by then.
         res, crashes = [], {}
+        shrinking = tag.startswith('shr_')
         for off in range(0, len(cases), 350):
-            r, c = Check.run_impl(self, cases[off:off + 350], tag=tag)
+            chunk = cases[off:off + 350]
+            if not shrinking and self.crash_total > 600:
+                res += [['! notrun'] for _ in chunk]
+                continue
+            r, c = Check.run_impl(self, chunk, tag=tag)
             res += r
             for k, v in c.items():
                 crashes[off + k] = v
+            if not shrinking:
+                self.crash_total += len(c)
         return res, crashes
 
     def nontrivial(self, case, obs):
